@@ -803,12 +803,18 @@ class Run:
             cur = self.self_obj.getfield(f)
             if cur is None:
                 return
-            self.self_obj.setfield(f, self.havoc_like(cur, r))
+            if isinstance(cur, sym.SCompound):
+                cur.set(pack(self.havoc_like(cur, r)))
+            else:
+                self.self_obj.setfield(f, self.havoc_like(cur, r))
         elif r == 'self':
             return
         else:
             if r in self.env and isinstance(self.env[r], SV):
-                self.env[r] = self.havoc_like(self.env[r], r)
+                if isinstance(self.env[r], sym.SCompound):
+                    self.env[r].set(pack(self.havoc_like(self.env[r], r)))
+                else:
+                    self.env[r] = self.havoc_like(self.env[r], r)
 
     def havoc_like(self, v, base):
         if isinstance(v, SNum):
@@ -1588,7 +1594,11 @@ class Run:
                 cur = recv.getfield(fld)
                 if cur is None:
                     continue
-                recv.setfield(fld, self.havoc_like(cur, f"{fs.key}.{fld}"))
+                if isinstance(cur, sym.SCompound) and recv.fields is not None:
+                    # containers are mutated IN PLACE (aliases held by locals stay valid, as in Python)
+                    cur.set(pack(self.havoc_like(cur, f"{fs.key}.{fld}")))
+                else:
+                    recv.setfield(fld, self.havoc_like(cur, f"{fs.key}.{fld}"))
         for an in fs.modifies_args:
             if isinstance(a.get(an), SV.__mro__[0]) and hasattr(a[an], 'set'):
                 a[an].set(pack(self.fresh(a[an].typ, f"{fs.key}.{an}")))
